@@ -65,6 +65,22 @@ PROPS = {
         "level_text": "Insertion is checked on graphs that have a history, because that is where its defect classes live (index holes in the source, freed indices reused in the target so the mapping is not monotone, ports with several links, order links, metadata). The oracle observes both HUGRs through public queries before and after and checks isomorphism, root placement, frame and source-unmodified independently of the implementation's own mapping logic.",
         "level_note": "Trusted: oracles/iso.py. Later aliasing of metadata dicts between source and target is not asserted (the statement is about the moment of insertion). Operations are compared by identity or dataclass equality.",
     },
+    "C13": {
+        "engine": "B", "level": "exploration",
+        "tiers": {"quick": {"batches": 16, "runs": 400, "budget_s": 50, "floor_runs": 1500},
+                  "thorough": {"batches": 64, "runs": 4000, "budget_s": 550, "floor_runs": 40000}},
+        "rule": "one run = a well-formed engine-B builder program (interleaved open builders) into which exactly one faulty "
+                "request of a drawn kind (15 kinds, see fault_kinds_fired) is injected at a drawn step of a scheduler-chosen actor "
+                "at any depth; the call must raise, with the documented exception class; the run stops at the fault. Runs in which "
+                "the drawn fault never became applicable are discards. non-trivial = >= 2 calls incl. the fault; distinct = "
+                "distinct event-log digests",
+        "real": ["all builders, ops._CallOrLoad, exceptions"], "stub": [],
+        "discard_ceiling": 0.6,
+        "technique": "fault injection: one inconsistent client request injected at a seeded point of a seeded interleaving of builder actors; fail-stop oracle on the exception class",
+        "level_text": "The faults the statement names are client requests, so the fault model is request-level: a seeded well-formed program supplies the state (open builders at several depths, established conditional outputs, established CFG exit type, declared function outputs, tracked wires) and the scheduler picks where exactly one inconsistent call lands. The oracle is the statement's: the call raises, and with the documented class where one is documented.",
+        "level_note": "Excluded as ambiguous and listed in evidence: negative case indices (Python indexing vs 'out of range'); a wire into a block from inside another block of the same CFG (dominance is documented as deferred to validation). Nothing is asserted about the builder after the fault.",
+        "assumptions": ["excluded_inputs: add_case(negative index); Dom-invalid wire between blocks of one CFG"],
+    },
     "C15": {
         "engine": "D", "level": "exploration",
         "tiers": {"quick": {"batches": 16, "runs": 2500, "budget_s": 45, "floor_runs": 3000},
